@@ -227,6 +227,7 @@ def reg_from_spec(spec, fuse=False):
                         cnt = vti(part.split("=")[1])
             if not 0 <= (rv >> cnt) < 1 << w:
                 raise Stop("bit-field reset value does not fit")
+        access_label(b.get("access", "RW"))
         reg.fields.append((off, w, b.get("id", ""), b.get("name")))
         off += w
     if fuse and "index_int" not in spec:
@@ -468,3 +469,16 @@ def gen_RegLayouts():
 
 
 GENERATORS = {"RegLayouts": gen_RegLayouts}
+
+
+def gen_PfrFuns():
+    """AST translation of the two computed-field functions of BaseConfigArea (spsdk/pfr/pfr.py)."""
+    from extract import gen_funs
+    f = "spsdk/pfr/pfr.py"
+    gen_funs("PfrFuns", [
+        dict(file=f, qualname="BaseConfigArea.pfr_reg_inverse_high_half", lean="pfrInverseHighHalf", fallback_params=["val"]),
+        dict(file=f, qualname="BaseConfigArea.pfr_reg_inverse_lower_8_bits", lean="pfrInverseLower8Bits", fallback_params=["val"]),
+    ], "PfrFuns")
+
+
+GENERATORS["PfrFuns"] = gen_PfrFuns
